@@ -135,6 +135,11 @@ type sys struct {
 	last  *tpb.Configuration
 	// absolute: the alphabet carries absolute revisions, so the current revision is part of the state
 	absolute bool
+	// edit: read-modify-write - the caller builds every configuration by editing,
+	// in place, the object Current() handed it (maps included). What Current()
+	// returns belongs to the caller: editing it, and having the edit rejected,
+	// changes nothing
+	edit bool
 }
 
 func newSys(ops []loadOp, withBase, share bool) *sys {
@@ -205,6 +210,33 @@ func (s *sys) Apply(i int) []seqmc.Violation {
 		}
 	}
 	before := s.c.Current()
+	if before != nil {
+		before = proto.Clone(before).(*tpb.Configuration) // the harness's own copy: what Current() hands out may be edited below
+	}
+	if s.edit && cfg != nil {
+		if e := s.c.Current(); e != nil {
+			if e.Request == nil {
+				e.Request = map[string]*gpb.SubscribeRequest{}
+			}
+			if e.Target == nil {
+				e.Target = map[string]*tpb.Target{}
+			}
+			for k := range e.Request {
+				delete(e.Request, k)
+			}
+			for k := range e.Target {
+				delete(e.Target, k)
+			}
+			for k, v := range cfg.Request {
+				e.Request[k] = v
+			}
+			for k, v := range cfg.Target {
+				e.Target[k] = v
+			}
+			e.Revision = cfg.Revision
+			cfg = e
+		}
+	}
 	s.calls = nil
 	err := s.c.Load(cfg)
 	wantOK := valid(cfg) && (!s.loaded || higher)
@@ -388,6 +420,12 @@ func (harness) Specs(tier string) []seqmc.Spec {
 			{Name: "from NewConfigWithBase " + label + " (closure)", Ops: names, Depth: 30, New: func() seqmc.Sys { fullMemory = full; return newSys(ops, true, false) }},
 			{Name: "from NewConfig " + label + ", unchanged messages carried over by pointer (closure)", Ops: names, Depth: 30, New: func() seqmc.Sys { fullMemory = full; return newSys(ops, false, true) }},
 			{Name: "from NewConfigWithBase " + label + ", unchanged messages carried over by pointer (closure)", Ops: names, Depth: 30, New: func() seqmc.Sys { fullMemory = full; return newSys(ops, true, true) }},
+			{Name: "from NewConfigWithBase " + label + ", every configuration is the edited result of Current() (closure)", Ops: names, Depth: 30, New: func() seqmc.Sys {
+				fullMemory = full
+				s := newSys(ops, true, false)
+				s.edit = true
+				return s
+			}},
 		}
 	}
 	if tier == "thorough" {
